@@ -41,7 +41,7 @@ class Spec:
         self.tier = tier
 
     def budget(self, tier):
-        return (60_000, 100) if tier == 'quick' else (1_500_000, 1500)
+        return (250_000, 100) if tier == 'quick' else (1_500_000, 1500)
 
     def run_case(self, seed, replay=None):
         return W.run_case_c13(seed, replay, self.tier)
